@@ -114,6 +114,52 @@ def pmap(func, tasks, nproc=None, chunksize=1, ordered=True):
         return pool.map(func, tasks, chunksize=chunksize)
 
 
+def _nd_worker(conn, func, tasks, idx):
+    _worker_init()
+    out = []
+    for i in idx:
+        try:
+            out.append((i, func(tasks[i])))
+        except Exception as e:  # a crashed task must not take the others down
+            t = Tally()
+            t.violation("harness: task crashed", {"task_index": i}, {"exc": repr(e)[:400]})
+            out.append((i, t))
+    conn.send(out)
+    conn.close()
+
+
+def pmap_nd(func, tasks, nproc=None):
+    """
+    Like pmap but with non-daemonic worker processes (they may start children themselves,
+    which the sandbox engine needs).  Tasks are dealt round-robin; results in task order.
+    """
+    tasks = list(tasks)
+    nproc = min(nproc or NPROC, max(1, len(tasks)))
+    ctx = multiprocessing.get_context("fork")
+    procs = []
+    for w in range(nproc):
+        idx = list(range(w, len(tasks), nproc))
+        parent, child = ctx.Pipe(duplex=False)
+        p = ctx.Process(target=_nd_worker, args=(child, func, tasks, idx))
+        p.daemon = False
+        p.start()
+        child.close()
+        procs.append((p, parent, idx))
+    results = [None] * len(tasks)
+    for p, parent, idx in procs:
+        try:
+            for i, r in parent.recv():
+                results[i] = r
+        except EOFError:
+            for i in idx:
+                if results[i] is None:
+                    t = Tally()
+                    t.violation("harness: worker process died", {"task_index": i}, {"exitcode": p.exitcode})
+                    results[i] = t
+        p.join()
+    return results
+
+
 class Tally:
     """What a worker returns: counts, violations, samples.  Mergeable."""
 
